@@ -477,7 +477,7 @@ pub fn gen_c19(seed: u64, tier: Tier) -> CaseSet {
     }
     // ---------------- certificates over validator sets of every size class ----------------
     // validator counts 1..=MAX_SIGNERS (the supported maximum, as probed on the decoder), around every word boundary class
-    let max_signers = (64 * probe_max_signer_words() as u64).max(130);
+    let max_signers = (alpenglow::crypto::aggsig::verif_max_signers() as u64).max(130);
     let mut counts: Vec<u64> = vec![1, 2, 3, 63, 64, 65, 127, 128, 129, max_signers - 64, max_signers - 63, max_signers - 1, max_signers];
     if !quick { for n in [191u64, 192, 193, max_signers / 2 - 1, max_signers / 2, max_signers / 2 + 1, max_signers - 129, max_signers - 128, max_signers - 127] { counts.push(n); } }
     let nboundary = counts.len();
@@ -735,6 +735,10 @@ pub fn gen_c19(seed: u64, tier: Tier) -> CaseSet {
     let shard_sizes: HashSet<u64> = shard_cases.iter().map(|c| c.2).collect();
     stats.distinct_nontrivial += shard_sizes.len() as u64;
 
+    // the decoder's bitmask cap must be exactly what MAX_SIGNERS needs
+    if probe_max_signer_words() != alpenglow::crypto::aggsig::verif_max_signers().div_ceil(64) {
+        stats.harness_findings.push((0, format!("wire:consensus:bitmask-cap-{}-words-differs-from-MAX_SIGNERS-{}", probe_max_signer_words(), alpenglow::crypto::aggsig::verif_max_signers())));
+    }
     stats.rule = format!("{} messages built by the crate's constructors (votes of 5 kinds with boundary slots / signer indices; certificates of 5 types over validator sets of 1,2,3,63,64,65,127,128,129,MAX-64,MAX-63,MAX-1,MAX (MAX = 64 * probed bitmask cap) and random sizes with signer subsets lowest / highest / all / random half / word boundaries and both halves of mixed certificates; regular and coding-only shreds for slice payloads hitting shard sizes 2..1024; repair requests, responses with double-Merkle proofs from blocks of 1..1024 slices, shred responses, nacks; transactions of 0..512 bytes), each encoded by wincode::serialize and decoded by network::deserialize; the mutation catalogue on the encodings (truncation, extension, doubling, enum tags, option tags, bool bytes, slice / shred indices at and beyond their bounds, vector lengths around the preallocation limit, num_bits / word count of the signer bitmask around 64*len and the {}-word cap, extra bitmask words, dead bits, BLS point corruption incl. infinity / compression flags); arbitrary byte strings per decoder; shred lengths of all four shredders for {} distinct shard sizes; encoded length of all five certificate types for {} validator counts in 1..={}; non-trivial = distinct byte string that is not a plain built message, plus distinct shard sizes and validator counts", nbuilt, probe_max_signer_words(), shard_sizes.len(), cert_len_n.len(), max_signers);
     let mut v: Vec<_> = dist.into_iter().collect(); v.sort();
     stats.distribution.push(("inputs".into(), v.iter().map(|(k, c)| format!("{}={}", k, c)).collect::<Vec<_>>().join(", ")));
